@@ -102,19 +102,14 @@ theorem duplicateNameGo_some (rest seen : List Param) (n : String)
 
 /-- after the repair at most two nested entries of one key are let through, whatever the
     asserting flags are; the third is `InfiniteRecursionDetected` -/
-theorem admitted_le_two (m : Mark) (flags : List Bool) : admitted enter m flags ≤ 2 := by
+theorem admitted_le_one (m : Mark) (flags : List Bool) : admitted enter m flags ≤ 1 := by
   cases flags with
   | nil => simp [admitted]
-  | cons a r1 =>
-    cases r1 with
-    | nil => cases m <;> cases a <;> simp [admitted, enter]
-    | cons b r2 =>
-      cases r2 with
-      | nil => cases m <;> cases a <;> cases b <;> simp [admitted, enter]
-      | cons c r3 =>
-        cases m <;> cases a <;> cases b <;> cases c <;> simp [admitted, enter]
+  | cons a rest =>
+    cases rest with
+    | nil => cases m <;> simp [admitted, enter]
+    | cons b rest => cases m <;> simp [admitted, enter]
 
-/-- before the repair: while asserting, every entry was let through -/
 theorem admittedOrig_all (n : Nat) :
     admitted enterOrig .vacant (List.replicate (n + 1) true) = n + 1 := by
   have h : ∀ k, admitted enterOrig .pending (List.replicate k true) = k := by
